@@ -46,6 +46,7 @@ def plan(tier, seed):
     cases += rowlib.corpus_cases(rng, 100 if q else 1500, 10, CFGS, tag="unbal")
     cases += rowlib.gen_cases(G.heavy_unbalanced(rng, 40 if q else 400), 10, CFGS, "heavy")
     cases += rowlib.gen_cases(G.deletions(rng, 40 if q else 400), 10, CFGS, "del")
+    cases += rowlib.gen_cases(G.charge_only_imbalance(rng, 60 if q else 400), 10, CFGS, "charge_only")
     cases += rowlib.gen_cases([p for p in G.dative(rng, 60 if q else 400) if not oracle.balanced(p[1])], 10, CFGS, "dative_unbal")
     return rowlib.spread(cases, 16 if q else 48)
 
